@@ -266,8 +266,15 @@ func (env *Zlisp) MakeSymbol(name string) *SexpSymbol {
 }
 
 func (env *Zlisp) GenSymbol(prefix string) *SexpSymbol {
-	symname := prefix + strconv.Itoa(env.nextsymbol)
-	return env.MakeSymbol(symname)
+	// the name must be new: scripts (str2sym) and interpreters sharing
+	// this table (Duplicate, Clone) may already have interned prefix+N.
+	for {
+		symname := prefix + strconv.Itoa(env.nextsymbol)
+		if _, exists := env.symtable[symname]; !exists {
+			return env.MakeSymbol(symname)
+		}
+		env.nextsymbol++
+	}
 }
 
 func (env *Zlisp) CurrentFunctionSize() int {
